@@ -36,6 +36,9 @@ type vfEnv struct {
 	S, T  string
 	Xs    []int
 	Ys    []int
+	Xss   [][]int
+	Ss    []string
+	Any   interface{}
 	M     map[string]int
 	Ptr   *vfNode
 	Fn    func(int) int
@@ -105,6 +108,36 @@ func vfMakeEnv(src string, maxLen int) *vfEnv {
 	} else {
 		e.Ys = []int{2}
 	}
+	if uses("Xss") {
+		n := vfChoice("Xss.len", maxLen+1)
+		e.Xss = make([][]int, n)
+		for i := range e.Xss {
+			e.Xss[i] = mk("Xss" + string(rune('0'+i)) + "_")
+		}
+	}
+	if uses("Ss") {
+		n := vfChoice("Ss.len", maxLen+1)
+		e.Ss = make([]string, n)
+		for i := range e.Ss {
+			e.Ss[i] = vfStrings[vfChoice("Ss.el", len(vfStrings))]
+		}
+	}
+	if uses("Any") {
+		switch vfChoice("Any.kind", 6) {
+		case 0:
+			e.Any = vfInt("Any.int")
+		case 1:
+			e.Any = vfInt64("Any.int64")
+		case 2:
+			f := vfFloat64("Any.float64")
+			vfAssume(f == f)
+			e.Any = f
+		case 3:
+			e.Any = vfStrings[vfChoice("Any.string", len(vfStrings))]
+		case 4:
+			e.Any = vfUint8("Any.uint8")
+		}
+	}
 	if uses("M") {
 		e.M = map[string]int{}
 		if vfBool("M.has_a") {
@@ -136,7 +169,7 @@ func vfMakeEnv(src string, maxLen int) *vfEnv {
 func (e *vfEnv) asMap() map[string]interface{} {
 	return map[string]interface{}{
 		"A": e.A, "B": e.B, "I64": e.I64, "U8": e.U8, "F": e.F, "P": e.P, "Q": e.Q, "S": e.S, "T": e.T,
-		"Xs": e.Xs, "Ys": e.Ys, "M": e.M, "Ptr": e.Ptr, "Fn": e.Fn, "Gn": e.Gn, "Pf": e.Pf, "Qf": e.Qf, "Hf": e.Hf,
+		"Xs": e.Xs, "Ys": e.Ys, "Xss": e.Xss, "Ss": e.Ss, "Any": e.Any, "M": e.M, "Ptr": e.Ptr, "Fn": e.Fn, "Gn": e.Gn, "Pf": e.Pf, "Qf": e.Qf, "Hf": e.Hf,
 		"FnU8": e.FnU8, "FnF": e.FnF, "FnI64": e.FnI64,
 	}
 }
@@ -191,6 +224,12 @@ func (r *vfRef) ident(name string) interface{} {
 		return e.Xs
 	case "Ys":
 		return e.Ys
+	case "Xss":
+		return e.Xss
+	case "Ss":
+		return e.Ss
+	case "Any":
+		return e.Any
 	case "M":
 		return e.M
 	case "Ptr":
@@ -389,6 +428,10 @@ func vfIsNilValue(v interface{}) bool {
 		return x == nil
 	case []interface{}:
 		return x == nil
+	case []string:
+		return x == nil
+	case [][]int:
+		return x == nil
 	case map[string]int:
 		return x == nil
 	case map[string]interface{}:
@@ -409,6 +452,12 @@ func vfSeq(v interface{}) ([]interface{}, bool) {
 	case []interface{}:
 		return x, true
 	case []string:
+		out := make([]interface{}, len(x))
+		for i, e := range x {
+			out[i] = e
+		}
+		return out, true
+	case [][]int:
 		out := make([]interface{}, len(x))
 		for i, e := range x {
 			out[i] = e
@@ -748,6 +797,13 @@ func (r *vfRef) index(base, idx interface{}) interface{} {
 	case *vfNode:
 		return r.property(b, r.str(idx), false)
 	}
+	if xs, ok := vfSeq(base); ok {
+		i := r.integer(idx)
+		if i < 0 || i >= len(xs) {
+			vfFailf("index out of range")
+		}
+		return xs[i]
+	}
 	vfFailf("index of non-collection")
 	return nil
 }
@@ -763,7 +819,11 @@ func (r *vfRef) slice(x *ast.SliceNode) interface{} {
 	case string:
 		n = len(b)
 	default:
-		vfFailf("slice of non-sequence")
+		if xs, ok := vfSeq(base); ok {
+			n = len(xs)
+		} else {
+			vfFailf("slice of non-sequence")
+		}
 	}
 	// operand order of evaluation: node, to, from (unobservable unless both call functions; the
 	// property fixes left-to-right for calls, so templates keep calls out of slice bounds)
@@ -791,7 +851,8 @@ func (r *vfRef) slice(x *ast.SliceNode) interface{} {
 	case string:
 		return b[from:to]
 	}
-	return nil
+	xs, _ := vfSeq(base)
+	return xs[from:to]
 }
 
 func (r *vfRef) call(name string, args []interface{}) interface{} {
@@ -841,6 +902,9 @@ func (r *vfRef) builtin(x *ast.BuiltinNode) interface{} {
 			return len(c)
 		case map[string]interface{}:
 			return len(c)
+		}
+		if xs, ok := vfSeq(coll); ok {
+			return len(xs)
 		}
 		vfFailf("len of non-collection")
 	}
@@ -944,6 +1008,12 @@ func vfSame(a, b interface{}) bool {
 		return ok && x == y
 	case *vfNode:
 		y, ok := b.(*vfNode)
+		return ok && x == y
+	case vfLevel:
+		y, ok := b.(vfLevel)
+		return ok && x == y
+	case int8:
+		y, ok := b.(int8)
 		return ok && x == y
 	case map[string]int:
 		y, ok := b.(map[string]int)
